@@ -11,7 +11,7 @@ lambda_r, p3, p4), evaluated with mpmath (50 digits).  An anchor is a first word
       length (x_m + u - j) / p1.
 Run at authoring time; output committed."""
 import sys
-from mpmath import mp, mpf, sqrt, floor, binomial, power
+from mpmath import mp, mpf, sqrt, floor, binomial, power, exp
 mp.dps = 50
 
 CASES = [(40, 0.5), (1000, 0.5), (400, 0.25), (100, 0.75), (4096, 0.125), (64, 0.375)]
@@ -77,10 +77,48 @@ def main(out):
                     if 0 < frac < 1 and yy not in [a for a, _ in js]:
                         js.append((yy, frac))
                 r1.append((j, js))
+        # regions 3 / 4 (exponential tails): for the first word (u) the proposal depends on the second uniform v:
+        #   region 3: y = floor(x_l + ln(v)/lambda_l), accepted iff v (u - p2) lambda_l <= f(y)/f(m)
+        #   region 4: y = floor(x_r - ln(v)/lambda_r), accepted iff v (u - p3) lambda_r <= f(y)/f(m)
+        # so the second words that return a given y form the interval  [v_lo(y), min(v_hi(y), F(y)/((u - p_i) lambda))): anchors give a probe
+        # word inside it and its two ends
+        lam = lambda a: a * (1 + a / 2)
+        f_m = n * s['p'] + s['p']
+        ll = lam((f_m - s['x_l']) / (f_m - s['x_l'] * s['p'])); lr = lam((s['x_r'] - f_m) / (s['x_r'] * s['q']))
+        rt = []
+        for (reg, frac_u) in ((3, mpf('0.3')), (3, mpf('0.7')), (4, mpf('0.3')), (4, mpf('0.7'))):
+            lo_u, hi_u = (s['p2'], s['p3']) if reg == 3 else (s['p3'], s['p4'])
+            u = lo_u + frac_u * (hi_u - lo_u)
+            j = int(floor(u / s['p4'] * (1 << 20)))
+            u = mpf(j) / (1 << 20) * s['p4']
+            if not (lo_u < u <= hi_u):
+                continue
+            for dy in (1, 3, 6):
+                if reg == 3:
+                    y = int(floor(s['x_l'])) - dy
+                    if y < 0:
+                        continue
+                    vlo = exp(ll * (y - s['x_l'])); vhi = exp(ll * (y + 1 - s['x_l']))
+                    cap = s['pmf'](y) / fm / ((u - s['p2']) * ll)
+                else:
+                    y = int(floor(s['x_r'])) + dy
+                    if y > n:
+                        continue
+                    vhi = exp(-lr * (y - s['x_r'])); vlo = exp(-lr * (y + 1 - s['x_r']))      # y = floor(x_r - ln v / lr): larger v, smaller y
+                    cap = s['pmf'](y) / fm / ((u - s['p3']) * lr)
+                lo, hi = vlo, min(vhi, cap)
+                if reg == 4:
+                    # out == y for v in (vlo, vhi]; accepted iff v <= cap
+                    pass
+                if hi - lo < mpf(2) ** -30 or hi > 1:
+                    continue
+                probe = (lo + hi) / 2
+                rt.append((j << 44, y, probe, lo, hi))
+        at = ',\n      '.join('[w1 |-> "%d", y |-> %d, probe |-> "%d", lo |-> %s, hi |-> %s]' % (w1, y, int(floor(pr * 2 ** 64)), l14(floor(lo * 2 ** 64)), l14(floor(hi * 2 ** 64))) for (w1, y, pr, lo, hi) in rt)
         a2 = ',\n      '.join('[w1 |-> "%d", y |-> %d, frac |-> %s]' % (j << 50, y, l14(floor(A * 2 ** 64))) for (j, y, A) in r2)
         a1 = ',\n      '.join('[w1 |-> "%d", js |-> <<%s>>]' % (j << 50, ', '.join('[j |-> %d, cnt |-> %s]' % (yy, l14(floor(fr * 2 ** 64))) for yy, fr in js)) for (j, js) in r1)
-        rows.append('  [id |-> %d, n |-> %d, p |-> "%s", flipped |-> %s, m |-> %d,\n   r2 |-> <<\n      %s>>,\n   r1 |-> <<\n      %s>>]' % (
-            ci + 1, n, repr(float(p0)), 'TRUE' if s['flipped'] else 'FALSE', s['m'], a2, a1))
+        rows.append('  [id |-> %d, n |-> %d, p |-> "%s", flipped |-> %s, m |-> %d,\n   r2 |-> <<\n      %s>>,\n   r1 |-> <<\n      %s>>,\n   rt |-> <<\n      %s>>]' % (
+            ci + 1, n, repr(float(p0)), 'TRUE' if s['flipped'] else 'FALSE', s['m'], a2, a1, at))
     text = '''----------------------------- MODULE BtpeTable -----------------------------
 (***************************************************************************)
 (* GENERATED by tools/gen_btpe_table.py (mpmath, 50 digits) - do not edit. *)
